@@ -849,7 +849,7 @@ func (s *c19DevSys) Key() string {
 
 func c19DevCfgs() []*c19DevCfg {
 	return []*c19DevCfg{
-		{name: "dev-gpu3", gpus: 3, shapes: []string{"W1", "W2", "F50", "F25", "B4G"}, maxPods: 3, depthQ: 3, depthT: 5, share: 0.4},
+		{name: "dev-gpu3", gpus: 3, shapes: []string{"W1", "W2", "F50", "F25", "B4G"}, maxPods: 3, depthQ: 4, depthT: 5, share: 0.4},
 		{name: "dev-gpu2-rdma1-vf", gpus: 2, rdma: 1, shapes: []string{"W1", "F50", "M2x50", "R1VF", "G50R1"}, maxPods: 4, depthQ: 3, depthT: 5, share: 0.6},
 	}
 }
